@@ -179,6 +179,15 @@ func ZzC18ClientStart() {
 	wq := zzInt("WriteQueueSize")
 	mps := zzInt("MaxPacketSize")
 	c := &Client{WriteQueueSize: wq, MaxPacketSize: mps}
+	// the limit holds for whatever transport the application asks for
+	switch zzConcretize(zzIntIn("protocol", 0, 3)) {
+	case 1:
+		c.Protocol = new(ProtocolUDP)
+	case 2:
+		c.Protocol = new(ProtocolUDPMulticast)
+	case 3:
+		c.Protocol = new(ProtocolTCP)
+	}
 	err := c.Start()
 	if err == nil {
 		zzAssert(zzOr(wq == 0, zzAnd(wq > 0, wq&(wq-1) == 0)), "client: a write queue size that is not a power of two is rejected at start")
